@@ -458,7 +458,7 @@ class simulation_model():
         :return:
         """
         memo = {}
-        dt = 0.25
+        dt = self.dt
 
         def mem(eq, t):
             """
@@ -483,7 +483,7 @@ class simulation_model():
 
         for n in list(range(2, order + 1)): addEquation(n)
 
-        return s[order](t) if ( t >= self.starttime + (dt * order) ) else 0
+        return s[order](t) if ( t >= grid_time(self.starttime + (dt * order), self.dt, self.starttime) ) else 0
 
     def smthn(self, inputstream, averaging_time, initial, n, t):
         """
